@@ -290,6 +290,16 @@ func (bn *baseNode) canSetOwner(uid, gid int, u avfs.UserReader) bool {
 	return gid == -1 || gid == bn.gid || gid == u.Gid()
 }
 
+// stickyDenied reports whether the sticky bit of the directory forbids the user u
+// to remove or rename an entry owned by childUid.
+func (dn *dirNode) stickyDenied(childUid int, u avfs.UserReader) bool {
+	if dn.mode&fs.ModeSticky == 0 || u.IsAdmin() {
+		return false
+	}
+
+	return u.Uid() != childUid && u.Uid() != dn.uid
+}
+
 // setModTime sets the modification time of the node.
 func (bn *baseNode) setModTime(mtime time.Time, u avfs.UserReader) bool {
 	if bn.uid != u.Uid() && !u.IsAdmin() {
